@@ -45,7 +45,7 @@ def run(chk):
             open(can, "w").write(json.dumps(v) + "\n")
             p = vlib.vh(["gram-replay", "--which", "type"], stdin_path=can)
             if b'"bad":true' not in p.stdout:
-                raise vlib.ToolError("canary (flipped IsTypeRef) not rejected by the comparator")
+                chk.canary_failed.append("canary (flipped IsTypeRef) not rejected by the comparator")
         os.remove(cases)
 
     # impl -> spec: primitive-operation traces of the two standalone entry points (Done requires, with no
